@@ -311,7 +311,7 @@ def _c11_eval(words, env):
             if i + 1 < len(words) and re.match(r"^[A-Za-z_]\w*$", words[i + 1]) and words[i + 1] not in ("true", "false"):
                 toks.append(1 if words[i + 1] in env else 0)
                 i += 2
-            elif i + 3 < len(words) and words[i + 1] == "(" and re.match(r"^[A-Za-z_]\w*$", words[i + 2]) and words[i + 3] == ")":
+            elif i + 3 < len(words) and words[i + 1] == "(" and re.match(r"^[A-Za-z_]\w*$", words[i + 2]) and words[i + 2] not in ("true", "false") and words[i + 3] == ")":
                 toks.append(1 if words[i + 2] in env else 0)
                 i += 4
             else:
@@ -518,7 +518,8 @@ def _c16_conv(arg, par):
     psc, pd, pf = par
     lv = "l" in af
     if "o" in pf:
-        if not lv or asc != psc or ad != pd or ("c" in af and "c" not in pf):
+        # the signature's parameter type carries no const (strip_param_type): a const argument cannot bind to it
+        if not lv or asc != psc or ad != pd or "c" in af:
             return None
         return (0, 0)
     tier = next(i for i, t in enumerate(_TIERS[asc]) if psc in t) if asc != psc else 0
@@ -1104,6 +1105,16 @@ class C12(Prop):
             return None
         got = [t for t in main.split()[1:] if t not in ("~", "$")] if main.startswith("OK") else None
         if got != ref[1]:
+            if main.startswith("ERR"):
+                # the preprocessor expands every argument, C only the ones the replacement list uses: an error inside
+                # an unused argument is a difference the property does not speak about (same treatment as `mal`)
+                import c12ref
+                try:
+                    eager = c12ref.run_case_eager(case)
+                except Exception:
+                    eager = ("ok",)
+                if eager[0] == "err":
+                    return None
             return "C expands to %r; the preprocessor produced %r" % (" ".join(ref[1])[:300], main[:300])
         return None
 
@@ -1114,8 +1125,82 @@ class C12(Prop):
         ref, (cyc, mal) = self._ref(case)
         if len(ref) > 2 and ref[2]:
             return "paste-empty-operand"
+        if main.startswith("ERR Concat"):
+            # the empty operand may sit in an argument that C never expands (the preprocessor expands them all)
+            import c12ref
+            try:
+                eager = c12ref.run_case_eager(case)
+            except Exception:
+                eager = ("ok",)
+            if len(eager) > 2 and eager[2]:
+                return "paste-empty-operand"
         if cyc and ref[0] == "ok" and main.startswith("OK"):
             return "recursive-macro-rescan"
+        if len(ref) > 3 and ref[3] and ref[0] == "ok" and main.startswith("OK"):
+            return "function-macro-name-followed-by-macro"
+        # `#include` against the pasted text: an invocation whose name ends the included file and whose `(` follows the
+        # #include line is one invocation in the pasted text and none across the file boundary
+        segs = [x.strip() for x in impl.split(" || ")]
+        if any(x.startswith("PASTED ") and x[7:] != main for x in segs[1:]):
+            # decided with the reference preprocessor: it agrees with the preprocessor on the separate files and on
+            # the pasted text, and itself gives different results for the two, so the difference is the file boundary
+            import c12ref
+            pc = c12ref.paste_case(case)
+            try:
+                rs, rp = c12ref.run_case(case), (c12ref.run_case(pc) if pc else None)
+            except Exception:
+                rs = rp = None
+            def same(r, line):
+                if r is None or r[0] == "outside":
+                    return False
+                if r[0] == "err":
+                    return line.startswith("ERR")
+                return line.startswith("OK") and [t for t in line.split()[1:] if t not in ("~", "$")] == [t for t in r[1] if t != "$"]
+            pasted_line = next(x[7:] for x in segs[1:] if x.startswith("PASTED "))
+            if rp is not None and len(rp) > 3 and rp[3] and not same(rp, pasted_line) and same(rs, main):
+                return "function-macro-name-followed-by-macro"
+            if rs is not None and rp is not None and rs[:2] != rp[:2] and same(rs, main) and same(rp, pasted_line):
+                return "macro-invocation-across-include-boundary"
+            # where the reference cannot run the program (outside its subset): by shape - the last word before a file
+            # boundary is a function-like macro name, or an object-like macro whose replacement list can end in one
+            items = [x.split() for x in case.split(";")]
+            fl, obj = set(), {}
+            for it in items:
+                if it and it[0] == "D":
+                    raw = it[1:]
+                    k = 0
+                    while k < len(raw) and raw[k] == "~":
+                        k += 1
+                    if k + 1 < len(raw) and raw[k + 1] == "(":
+                        fl.add(raw[k])
+                    elif k < len(raw):
+                        obj.setdefault(raw[k], set()).update(x for x in raw[k + 1:] if x != "~")
+            reach = set(fl)
+            changed = True
+            while changed:
+                changed = False
+                for n, ws in obj.items():
+                    if n not in reach and ws & reach:
+                        reach.add(n)
+                        changed = True
+            cur, last, hit = None, None, False
+            entry = next((it[1] for it in items if it and it[0] == "F"), None)
+            for it in items + [["F", None]]:
+                if not it:
+                    continue
+                if it[0] == "F":
+                    hit = hit or (cur is not None and cur != entry and last in reach)
+                    cur, last = it[1], None
+                elif it[0] == "T":
+                    ws = [x for x in it[1:] if x not in ("~", "$")]
+                    last = ws[-1] if ws else last
+                elif it[0] == "I":
+                    hit = hit or last in reach
+                    last = None
+                elif it[0] in ("D", "U"):
+                    last = None
+            if hit and (rs is None or rs[0] == "outside" or rp is None or rp[0] == "outside"):
+                return "macro-invocation-across-include-boundary"
         return None
 
     def nontrivial(self, case, impl):
@@ -1352,7 +1437,9 @@ class C04(Prop):
         return "second compilation aborted: " + impl[:300]
 
     def known_class(self, case, impl, model):
-        if impl.startswith("REJECT") and "failed to parse source" in impl:
+        if impl.startswith("REJECT"):
+            # read as explicit template arguments, the chain fails to parse, or parses and fails later (not a constant
+            # expression, call of a non-function): the reported line has the shape either way
             line = impl.split(" | ", 1)[1] if " | " in impl else ""
             if re.search(r"<[^;<>]*>\s*\(", line):
                 return "comparison-chain-read-as-template-arguments"
@@ -1603,7 +1690,7 @@ class C01(Prop):
         return None
 
     def known_class(self, case, impl, model):
-        if impl.startswith("REREAD-REJECTED") and "failed to parse source" in impl:
+        if impl.startswith("REREAD-REJECTED"):
             line = impl.split(" | ", 1)[1] if " | " in impl else ""
             if re.search(r"<[^;<>]*>\s*\(", line):
                 return "comparison-chain-read-as-template-arguments"
